@@ -103,6 +103,9 @@ import E3nnVerif.Generated.TP.M003
 import E3nnVerif.Generated.TP.M004
 import E3nnVerif.Generated.TP.M005
 import E3nnVerif.Generated.TP.M006
+import E3nnVerif.Generated.TP.M008
+import E3nnVerif.Generated.TP.M009
+import E3nnVerif.Generated.TP.M010
 import E3nnVerif.Generated.TP.M007
 import E3nnVerif.Generated.TP.R000
 import E3nnVerif.Generated.TP.R001
@@ -218,6 +221,9 @@ def registry : List (String × Cfg × List Node) := [
   ("M004", M004.cfg, M004.prog),
   ("M005", M005.cfg, M005.prog),
   ("M006", M006.cfg, M006.prog),
+  ("M008", M008.cfg, M008.prog),
+  ("M009", M009.cfg, M009.prog),
+  ("M010", M010.cfg, M010.prog),
   ("M007", M007.cfg, M007.prog),
   ("R000", R000.cfg, R000.prog),
   ("R001", R001.cfg, R001.prog),
